@@ -2037,6 +2037,7 @@ func exUnionsGraph() *exGraph {
 			"open":   map[string]interface{}{"type": "object", "additionalProperties": true},
 			"typed":  map[string]interface{}{"type": "object", "additionalProperties": map[string]interface{}{"type": "string"}, "not": map[string]interface{}{"type": "null"}},
 			"plain":  map[string]interface{}{"type": "object"},
+			"":       map[string]interface{}{"type": "string", "description": "the definition whose name is empty"},
 			// unions their decoder leaves empty (the typed document then encodes them as null)
 			"scalaritems": map[string]interface{}{"type": "array", "items": 5},
 			"emptydep":    map[string]interface{}{"type": "object", "dependencies": map[string]interface{}{"k": []interface{}{}}},
@@ -2087,6 +2088,8 @@ var exUnionRefs = []string{"#/definitions/tuple/items", "#/definitions/tuple/ite
 	"#/definitions/list/additionalItems", "#/definitions/closed/additionalProperties", "#/definitions/open/additionalProperties",
 	"#/definitions/typed/additionalProperties", "#/definitions/typed/not", "#/definitions/plain/not", "#/definitions/plain/items", "#/definitions/plain/additionalProperties",
 	"#/definitions/scalaritems/items", "#/definitions/emptydep/dependencies/k", "#/definitions/plain/properties", "#/definitions/plain/allOf", "#/definitions/plain/required",
+	// pointers whose last token is empty (RFC 6901: the member named ""): one that exists, others that lead nowhere
+	"#/definitions/", "#/definitions/plain/", "#/", "#/definitions/tuple/items/", "#/definitions//",
 	"#/X-Shared/thing", "#/x-shared/thing", "#/x-Mixed/thing", "#/X-SHARED/thing", "#/definitions/ext/X-Inner/in", "#/definitions/ext/x-inner/in", "#/definitions/ext/x-INNER/in"}
 
 var exRefTextRe = regexp.MustCompile(`"\$ref"\s*:\s*"([^"]*)"`)
